@@ -1,7 +1,10 @@
 #!/usr/bin/env python3
 """C05 harness, executable leg: the REAL csg_stat (built from the working tree) on the complete generated inputs of the C04
 generator, once with --nt 1 and once with --nt k (k = 2..8), same options otherwise (block output on/off, --first-frame /
---nframes selections, IMC on/off); every file the two runs wrote is compared byte for byte.  One protocol line per pair of runs."""
+--nframes selections, IMC on/off); every file the two runs wrote is compared byte for byte.  One protocol line per pair of runs.
+A second family ("direct", scenario ids ending in :n) analyses the same trajectory WITHOUT a mapping: the xml topology itself
+declares the bonds / angles / dihedrals of the molecules (so the exclusions and the bonded interactions every worker evaluates
+come from the topology each worker reads for itself)."""
 import glob, os, random, re, shutil, subprocess, sys, tempfile
 from concurrent.futures import ThreadPoolExecutor
 
@@ -10,17 +13,58 @@ import c04 as g
 
 os.environ.setdefault("OMP_NUM_THREADS", "1")     # many runs in parallel: one thread each (no oversubscription, no timeouts under load)
 VERIF = g.VERIF
-INPUTS = ("topol.xml", "m.xml", "s.xml", "opt.xml", "traj.gro")
+INPUTS = ("topol.xml", "m.xml", "s.xml", "opt.xml", "traj.gro", "topol_d.xml", "opt_d.xml")
+
+
+def write_direct(s, d):
+    """topology with the bonded section in the xml itself, and an options file over the atom types a / s"""
+    natm = sum(len(ws) for (_, ws) in s.m_beads)
+    with open(os.path.join(d, "topol_d.xml"), "w") as f:
+        f.write("<topology>\n <molecules>\n")
+        f.write('  <molecule name="M" nmols="%d" nbeads="%d">\n' % (s.n_m, natm))
+        for k in range(natm):
+            f.write('   <bead name="a%d" type="a" mass="1.0" q="0"/>\n' % (k + 1))
+        f.write("  </molecule>\n")
+        f.write('  <molecule name="S" nmols="%d" nbeads="%d">\n' % (s.n_s, len(s.s_weights)))
+        for k in range(len(s.s_weights)):
+            f.write('   <bead name="s%d" type="s" mass="1.0" q="0"/>\n' % (k + 1))
+        f.write("  </molecule>\n </molecules>\n")
+        bonded = []
+        if natm >= 2:
+            bonded.append("  <bond><name>dbond</name><beads>\n%s</beads></bond>\n" % "".join("    M:a%d M:a%d\n" % (i + 1, i + 2) for i in range(natm - 1)))
+        if natm >= 3:
+            bonded.append("  <angle><name>dangle</name><beads>\n%s</beads></angle>\n" % "".join("    M:a%d M:a%d M:a%d\n" % (i + 1, i + 2, i + 3) for i in range(natm - 2)))
+        if natm >= 4:
+            bonded.append("  <dihedral><name>ddih</name><beads>\n%s</beads></dihedral>\n" % "".join("    M:a%d M:a%d M:a%d M:a%d\n" % (i + 1, i + 2, i + 3, i + 4) for i in range(natm - 3)))
+        if bonded:
+            f.write(" <bonded>\n%s </bonded>\n" % "".join(bonded))
+        f.write("</topology>\n")
+    with open(os.path.join(d, "opt_d.xml"), "w") as f:
+        f.write("<cg>\n")
+        if natm >= 2:
+            f.write(" <bonded><name>dbond</name><min>0</min><max>2.0</max><step>0.05</step></bonded>\n")
+        if natm >= 3:
+            f.write(" <bonded><name>dangle</name><min>0</min><max>3.15</max><step>0.05</step></bonded>\n")
+        if natm >= 4:
+            f.write(" <bonded><name>ddih</name><min>-3.15</min><max>3.15</max><step>0.1</step></bonded>\n")
+        cut = int(100 * 0.35 * min(min(L) for (_, L, _) in s.boxes)) / 100.0      # well inside half of the smallest box
+        f.write(" <non-bonded><name>aa</name><type1>a</type1><type2>a</type2><min>0</min><max>%.2f</max><step>%.4f</step></non-bonded>\n" % (cut, cut / 16))
+        f.write(" <non-bonded><name>as</name><type1>a</type1><type2>s</type2><min>0</min><max>%.2f</max><step>%.4f</step></non-bonded>\n" % (cut, cut / 16))
+        f.write("</cg>\n")
 
 
 def run_nt(exe, s, nt):
     d = tempfile.mkdtemp(prefix="c05e_", dir=os.environ.get("VERIF_TMP", os.path.join(VERIF, ".cache", "tmp")))
     try:
         g.write_inputs(s, d)
-        cmd = [exe, "--top", "topol.xml", "--trj", "traj.gro", "--cg", "m.xml;s.xml", "--options", "opt.xml", "--nt", str(nt)]
-        if s.imc:
+        if s.direct:
+            write_direct(s, d)
+            cmd = [exe, "--top", "topol_d.xml", "--trj", "traj.gro", "--options", "opt_d.xml", "--nt", str(nt)]
+        else:
+            cmd = [exe, "--top", "topol.xml", "--trj", "traj.gro", "--cg", "m.xml;s.xml", "--options", "opt.xml", "--nt", str(nt)]
+        if s.imc and not s.direct:
             cmd.append("--do-imc")
-        if s.intra:
+        if s.intra and not s.direct:
             cmd.append("--include-intra")
         if s.block:
             cmd += ["--block-length", str(s.block)]
@@ -53,11 +97,12 @@ def one(exe, s):
     return "C05 enrun %s %d %d %d %d %d %d %d %s" % (s.sid, s.ntk, nsel, s.block, rc1, rck, len(names), len(diff), g.hexs(diff[0]) if diff else "-")
 
 
-def mk(seed, i):
+def mk(seed, i, direct=None):
     rng = random.Random(seed * 1000003 + i + 555)
     s = g.gen(rng)
-    s.sid = "%d:%d" % (seed, i)
     s.ntk = rng.choice([2, 2, 3, 4, 8])
+    s.direct = (i % 3 == 2) if direct is None else direct
+    s.sid = "%d:%d%s" % (seed, i, ":n" if s.direct else ":m")
     return s
 
 
@@ -71,9 +116,9 @@ def main():
     else:
         scen = []
         for line in sys.stdin:
-            for t in re.findall(r"C05 enrun (\d+:\d+)", line):
-                a, b = t.split(":")
-                scen.append(mk(int(a), int(b)))
+            for t in re.findall(r"C05 enrun (\d+:\d+(?::[nm])?)", line):
+                parts = t.split(":")
+                scen.append(mk(int(parts[0]), int(parts[1]), (parts[2] == "n") if len(parts) > 2 else False))
     with ThreadPoolExecutor(int(os.environ.get("VERIF_JOBS", "6"))) as ex:
         for line in ex.map(lambda s: one(exe, s), scen):
             sys.stdout.write(line + "\n")
